@@ -178,8 +178,11 @@ def build(name, env, cfg):
         mods = dict(policy=policy, policy_optimizer=popt, q=st.q, q_optimizer=st.q_optimizer, policy_target=pt, q_target=qt)
         f = {"ddpg": train_ddpg, "td3": train_td3, "td3_lap": train_td3_lap}[name]
 
+        strip = cfg.get("strip_target")  # "policy" / "q": hand in only the OTHER target (the routine creates the stripped one)
+
         def call(rb, kw):
-            return f(box[0], policy, popt, st.q, st.q_optimizer, replay_buffer=rb, policy_target=None if tn else pt, q_target=None if tn else qt, **kw)
+            return f(box[0], policy, popt, st.q, st.q_optimizer, replay_buffer=rb, policy_target=None if (tn or strip == "policy") else pt,
+                     q_target=None if (tn or strip == "q") else qt, **kw)
 
         return call, mods
     if name == "sac":
